@@ -71,7 +71,8 @@ impl Prop for C06 {
     fn generate(&self, rng: &mut Rng, slot_ns: u64, _avoid: bool) -> Value {
         let epoch_ns = slot_ns + timegen::phase_ns(rng, 20_000);
         let res = format!("c06_{:x}", rng.below(0xffffff));
-        let values = ["v1", "v2", "v3", "v4"];
+        // one scenario in three: the empty string is one of the parameter values (a legal value like any other)
+        let values = if rng.chance(1, 3) { ["v1", "", "v3", "v4"] } else { ["v1", "v2", "v3", "v4"] };
         let nvals = rng.range(1, 4) as usize;
         let nrules = if rng.chance(1, 4) { 2 } else { 1 };
         let mut rules: Vec<HotspotSpec> = vec![];
